@@ -214,6 +214,9 @@ class Report:
                         f"({len(self.nontrivial_keys)} distinct non-trivial)") if self.evaluations else "no bounded cases"
         coverage.setdefault("explanation", f"{proved_part}; {bounded_part}. "
                             "Bounded results are a stand-in and are not counted as proved.")
+        coverage["violations_detail"] = [dict(signature=v["signature"], what=v["what"][:400], count=v["count"],
+                                              replay=v["replay"], no_failing_input=v["no_failing_input"])
+                                         for v in self.violations]
         coverage["known_findings_hit"] = self.known_hits
         coverage["undecided"] = self.undecided
         coverage["checker_errors"] = self.checker_errors
